@@ -150,6 +150,8 @@ class Source:
         self.enums = dict(STD_ENUMS)          # name -> [variant names]
         self.enum_fields = {}                   # (enum, variant) -> [field names] | int arity
         self.structs = {}                       # name -> [field names]
+        self.struct_types = {}                  # name -> [(field name | index, type text)]
+        self.variant_types = {}                 # (enum, variant) -> [(field name | index, type text)]
         self.fn_generics = {}                   # (file, fn name, line) -> [generic names]
         self.fn_defs = {}                       # fn name -> [(file, line, generics, argnames)]
         self.impls = {}                         # (file, line) -> Impl
@@ -196,25 +198,31 @@ class Source:
                 if not mm: continue
                 vs.append(mm.group(1))
                 if mm.group(2) == '(':
-                    self.enum_fields[(m.group(1), mm.group(1))] = len(split_top(part[mm.end():match_close(part, mm.end() - 1)]))
+                    tys = split_top(part[mm.end():match_close(part, mm.end() - 1)])
+                    self.enum_fields[(m.group(1), mm.group(1))] = len(tys)
+                    self.variant_types[(m.group(1), mm.group(1))] = [(i, canon(' '.join(re.sub(r'^pub(?:\([^)]*\))? ', '', t.strip()).split()))) for i, t in enumerate(tys)]
                 elif mm.group(2) == '{':
                     inner = part[mm.end():match_close(part, mm.end() - 1)]
                     self.enum_fields[(m.group(1), mm.group(1))] = [re.match(r'(?:pub(?:\([^)]*\))? )?(\w+)', x.strip()).group(1) for x in split_top(inner)]
+                    self.variant_types[(m.group(1), mm.group(1))] = [(re.match(r'(?:pub(?:\([^)]*\))? )?(\w+)', x.strip()).group(1), canon(' '.join(x.split(':', 1)[1].split()))) for x in split_top(inner)]
                 else:
                     self.enum_fields[(m.group(1), mm.group(1))] = 0
+                    self.variant_types[(m.group(1), mm.group(1))] = []
             self.enums[m.group(1)] = vs
         for m in re.finditer(r'\bstruct (\w+)\s*(?:<[^>{(;]*>)?\s*(\{|\(|;)', clean):
             if m.group(2) == '{':
                 e = self._block_end(clean, m.end() - 1); body = re.sub(r'//[^\n]*', '', clean[m.end():e - 1])
-                names = []
+                names = []; tys = []
                 for part in split_top(body):
                     part = re.sub(r'#\[[^\]]*\]\s*', '', part).strip()
                     mm = re.match(r'(?:pub(?:\([^)]*\))? )?(\w+)\s*:', part)
-                    if mm: names.append(mm.group(1))
-                self.structs[m.group(1)] = names
+                    if mm: names.append(mm.group(1)); tys.append((mm.group(1), canon(' '.join(part[mm.end():].split()))))
+                self.structs[m.group(1)] = names; self.struct_types[m.group(1)] = tys
             elif m.group(2) == '(':
                 e = match_close(clean, m.end() - 1)
-                self.structs[m.group(1)] = list(range(len(split_top(clean[m.end():e]))))
+                parts = split_top(clean[m.end():e])
+                self.structs[m.group(1)] = list(range(len(parts)))
+                self.struct_types[m.group(1)] = [(i, canon(' '.join(re.sub(r'^pub(?:\([^)]*\))? ', '', t.strip()).split()))) for i, t in enumerate(parts)]
             else:
                 self.structs[m.group(1)] = []
         # impl headers
